@@ -162,7 +162,7 @@ Print Assumptions C13_union_example.
 (* ---- the STORED derived data: FW = W + for every live molecule and backup: each atom is pending (in _changed) or its stored
    hydrogen count was computed from its current environment (with the charge / radical state it has now, or - inside a
    transaction - had in the backup), and outside a transaction nothing is pending, every label and bond mark is current.
-   Contract fop_ok: setters only inside a transaction, no copy / substructure of the intermediate state of an open transaction;
+   Contract fop_ok: setters only inside a transaction, no copy() of the intermediate state of an open transaction;
    union and the patch step are not covered (hence _partial). *)
 Theorem C13_fresh_initial : FW empty_state.
 Proof. exact FW_empty. Qed.
@@ -192,3 +192,11 @@ Theorem C13_fresh_example :
    List.length (live s) = 3%nat /\ keys (o_atoms (s_cur s)) = [1; 9; 10]).
 Proof. exact fresh_example. Qed.
 Print Assumptions C13_fresh_example.
+
+(* split, __sub__, augmented_substructure, __and__ are operations of the state machine (all theorems above cover them; the
+   freshness contract excludes split) *)
+Theorem C13_parts_example :
+  ops_ok empty_state parts_history /\ trace parts_history empty_state = repeat None 13 /\
+  map (fun o => keys (o_atoms o)) (s_others (run parts_history empty_state)) = [[2; 3]; [1; 2]; [2; 3; 4]; [4]; [1; 2; 3]].
+Proof. exact parts_example. Qed.
+Print Assumptions C13_parts_example.
